@@ -522,13 +522,8 @@ func (fx *FnCtx) evalFrame(env *Env, exprs []SpecExpr, srcs []string) []FrameIte
 			if x.Fun == "arrays" && len(x.Args) == 1 {
 				// arrays(T): the elements of any array (slice backing store) with element type T
 				var t types.Type
-				switch a := x.Args[0].(type) {
-				case *SIdent:
-					t = fx.resolveType(a.Name, env.pkg)
-				case *SField:
-					if id, ok := a.X.(*SIdent); ok {
-						t = fx.resolveType(id.Name+"."+a.Name, env.pkg)
-					}
+				if tn := specTypeName(x.Args[0]); tn != "" {
+					t = fx.resolveType(tn, env.pkg)
 				}
 				if t == nil {
 					fx.fail("modifies %s: arrays(TypeName)", src)
@@ -1040,13 +1035,8 @@ func (fx *FnCtx) contractMods(fc *FuncContract, ms *modSet, call *ssa.CallCommon
 				}
 			}
 			var t types.Type
-			switch a := sc.Args[0].(type) {
-			case *SIdent:
-				t = fx.resolveType(a.Name, pkg)
-			case *SField:
-				if id, ok := a.X.(*SIdent); ok {
-					t = fx.resolveType(id.Name+"."+a.Name, pkg)
-				}
+			if tn := specTypeName(sc.Args[0]); tn != "" {
+				t = fx.resolveType(tn, pkg)
 			}
 			if t != nil {
 				fx.addArrHeaps(ms, t)
@@ -1402,4 +1392,23 @@ func (fx *FnCtx) sortModel(st *State, pc *Term, name string, call *ssa.CallCommo
 	fx.frameCheckRange(st, pc, sl.Elem(), x.L[0], lo, hi)
 	fx.havocFrame(st, pc, []FrameItem{{Kind: PElem, Root: sl.Elem(), Arr: x.L[0], Lo: lo, Hi: hi, Src: "sort." + name}}, "sort")
 	return Value{T: rt}
+}
+
+// specTypeName renders a type written as a specification expression: T, pkg.T, *T.
+func specTypeName(e SpecExpr) string {
+	switch a := e.(type) {
+	case *SIdent:
+		return a.Name
+	case *SField:
+		if id, ok := a.X.(*SIdent); ok {
+			return id.Name + "." + a.Name
+		}
+	case *SUn:
+		if a.Op == "*" {
+			if n := specTypeName(a.X); n != "" {
+				return "*" + n
+			}
+		}
+	}
+	return ""
 }
